@@ -12,6 +12,7 @@ import JubakoModel.Model.ContentPack
 import JubakoModel.Model.DirWriter
 import JubakoModel.Model.Search
 import JubakoModel.Model.View
+import JubakoModel.Model.Pack
 import JubakoModel.Generated.Funcs
 import JubakoModel.Lemmas.Codec
 
@@ -184,5 +185,23 @@ theorem gen_streamSize (s : Stream) : s.size = Generated.streamSize s.r.b s.r.e 
 
 theorem gen_streamOffset (s : Stream) : s.offset = Generated.streamOffset s.r.b s.r.e s.cur := by
   simp [Stream.offset, Generated.streamOffset]
+
+/-! ### the manifest's masked check stream -/
+
+/-- **one `ManifestCheckStream::read` call of the model is the translated body of the Rust `read`**:
+    the translated function gives the number of bytes asked of the underlying source and whether
+    they are delivered as zeros (the source itself is the model's: it returns what it has). -/
+theorem gen_checkStreamRead (packOff n pos : Nat) (src : Bytes) (req : Nat) :
+    checkStreamRead packOff n pos src req =
+      (let r := Generated.checkStreamStep packInfoBlockSize packOff (packOff + n * packInfoBlockSize) pos req
+       (if r.2 then zeros (src.take r.1).length else src.take r.1, src.drop r.1)) := by
+  unfold checkStreamRead Generated.checkStreamStep
+  by_cases h1 : pos < packOff
+  · simp [h1]
+  · by_cases h2 : pos ≥ packOff + n * packInfoBlockSize
+    · simp [h1, h2]
+    · by_cases h3 : (pos - packOff) % packInfoBlockSize < Consts.packInfoToCheck
+      · simp [h1, h2, h3]
+      · simp [h1, h2, h3]
 
 end Jubako
